@@ -5,6 +5,7 @@ From Coq Require Import List Bool Arith ZArith QArith.
 From GV Require Import Base.Outcome Base.AMap Model.GState Model.Creation Model.Query
      Model.Components Model.Cluster Model.Square Spec.ClusterDef Spec.ClusterSpec
      Proofs.ClusterDefOk Proofs.ClusterOk Proofs.ClusterEqOk.
+From GV Require Import Spec.CompSpec Spec.EdgeAdj Spec.History Proofs.WFDefs Proofs.HistoryOk Proofs.ClusterWF.
 Import ListNotations.
 Close Scope Q_scope.
 
@@ -127,3 +128,77 @@ Section C11.
     (q == transitivity_def teqb (get_all_node_names g) (nadj teqb g))%Q.
   Proof. intros g q Hok. exact (transitivity_eq_def teqb teqb_spec g Hok q). Qed.
 End C11.
+
+(* ======================================================================================
+   END TO END.  The executable coherence test nbr_ok_b is a CONSEQUENCE of the coherence
+   invariant WF of the twelve fields (which holds in every state reachable by any history of
+   mutations, in particular in every graph built by new_from_nodes_and_edges), and the
+   adjacency nadj the functions read IS the adjacency of the EDGE LIST: edge_adjb g u v = there
+   is an edge u -> v or v -> u in get_all_edges.  Hence, with no per-case test left in the
+   hypotheses, the values equal the definitions of Spec/ClusterDef.v over the edge list. *)
+Section C11_end_to_end.
+  Context {T A : Type}.
+  Variable teqb : T -> T -> bool.
+  Variable tltb : T -> T -> bool.
+  Hypothesis teqb_spec : forall x y, teqb x y = true <-> x = y.
+  Hypothesis tltb_asym : forall x y, tltb x y = true -> tltb y x = false.
+  Hypothesis tltb_total : forall x y, tltb x y = false -> tltb y x = false -> x = y.
+  Notation gstate := (gstate T A).
+  Notation WF := (@WF T A teqb tltb).
+
+  Theorem C11_reachable_WF : forall s (g : gstate), reachable teqb tltb s g -> WF g.
+  Proof. exact (WF_reachable teqb tltb teqb_spec tltb_asym tltb_total). Qed.
+
+  (* ---- the per-case tests are theorems ---- *)
+  Theorem C11_nbr_ok_holds : forall (g : gstate), WF g -> nbr_ok_b teqb g = true.
+  Proof. exact (nbr_ok_wf teqb tltb teqb_spec tltb_total). Qed.
+
+  Theorem C11_nadj_is_edge_list : forall (g : gstate) v u,
+    WF g -> nadj teqb g v u = edge_adjb teqb g v u.
+  Proof. exact (nadj_edge_adjb teqb tltb teqb_spec tltb_total). Qed.
+
+  (* the neighbour set every clustering function starts from: total, duplicate-free, exactly
+     the nodes joined to v by a stored edge in either direction *)
+  Theorem C11_neighbor_set : forall (g : gstate) v,
+    WF g -> In v (get_all_node_names g) ->
+    exists l, neighbor_name_set teqb g v = Ok l /\ NoDup l /\
+              forall u, In u l <-> (edge_rel g v u \/ edge_rel g u v).
+  Proof. exact (neighbor_name_set_wf teqb tltb teqb_spec tltb_total). Qed.
+
+  (* ---- model = definition over the edge list (undirected, unweighted) ---- *)
+  Theorem C11_triangles_wf : forall (g : gstate), WF g -> forall nn m v,
+    triangles teqb g nn = Ok m ->
+    In v (requested_names g nn) -> In v (get_all_node_names g) ->
+    lookup teqb v m = Some (tri teqb (get_all_node_names g) (edge_adjb teqb g) v).
+  Proof. exact (triangles_wf teqb tltb teqb_spec tltb_total). Qed.
+
+  Theorem C11_triangles_reachable : forall s (g : gstate), reachable teqb tltb s g -> forall nn m v,
+    triangles teqb g nn = Ok m ->
+    In v (requested_names g nn) -> In v (get_all_node_names g) ->
+    lookup teqb v m = Some (tri teqb (get_all_node_names g) (edge_adjb teqb g) v).
+  Proof. intros s g R. exact (triangles_wf teqb tltb teqb_spec tltb_total g (C11_reachable_WF s g R)). Qed.
+
+  Theorem C11_clustering_wf : forall (g : gstate), WF g -> forall nn m v,
+    directed (sp g) = false ->
+    clustering teqb g nn = Ok m ->
+    In v (requested_names g nn) -> In v (get_all_node_names g) ->
+    exists c, lookup teqb v m = Some c /\ (c == cc teqb (get_all_node_names g) (edge_adjb teqb g) v)%Q.
+  Proof. exact (clustering_wf teqb tltb teqb_spec tltb_total). Qed.
+
+  Theorem C11_clustering_reachable : forall s (g : gstate), reachable teqb tltb s g -> forall nn m v,
+    directed (sp g) = false ->
+    clustering teqb g nn = Ok m ->
+    In v (requested_names g nn) -> In v (get_all_node_names g) ->
+    exists c, lookup teqb v m = Some c /\ (c == cc teqb (get_all_node_names g) (edge_adjb teqb g) v)%Q.
+  Proof. intros s g R. exact (clustering_wf teqb tltb teqb_spec tltb_total g (C11_reachable_WF s g R)). Qed.
+
+  Theorem C11_transitivity_wf : forall (g : gstate), WF g -> forall q,
+    transitivity teqb g = Ok q ->
+    (q == transitivity_def teqb (get_all_node_names g) (edge_adjb teqb g))%Q.
+  Proof. exact (transitivity_wf teqb tltb teqb_spec tltb_total). Qed.
+
+  Theorem C11_transitivity_reachable : forall s (g : gstate), reachable teqb tltb s g -> forall q,
+    transitivity teqb g = Ok q ->
+    (q == transitivity_def teqb (get_all_node_names g) (edge_adjb teqb g))%Q.
+  Proof. intros s g R. exact (transitivity_wf teqb tltb teqb_spec tltb_total g (C11_reachable_WF s g R)). Qed.
+End C11_end_to_end.
